@@ -127,7 +127,17 @@ def gen_history(r, files, t_prev):
             if not any(p == d or p.startswith(d + '/') for p in files):
                 data = bytes(r.getrandbits(8) for _ in range(r.randint(1, 12)))
                 man = ('DATA data.bin %d SHA1 %s\n' % (len(data), hashlib.sha1(data).hexdigest())).encode()
-                ops.append(['add-dir', d, [['data.bin', data], [r.choice(['Manifest', 'Manifest', 'Manifest.gz']), man]], when])
+                mname = r.choice(['Manifest', 'Manifest', 'Manifest.gz'])
+                members = [['data.bin', data]]
+                if r.random() < 0.5:
+                    # ... a Manifest tree of two levels: the Manifest of the directory references the Manifest of a sub-directory
+                    data2 = bytes(r.getrandbits(8) for _ in range(r.randint(1, 12)))
+                    man2 = ('DATA data2.bin %d SHA1 %s\n' % (len(data2), hashlib.sha1(data2).hexdigest())).encode()
+                    members += [['inner/data2.bin', data2], ['inner/Manifest', man2]]
+                    man += ('MANIFEST inner/Manifest %d SHA1 %s\n' % (len(man2), hashlib.sha1(man2).hexdigest())).encode()
+                    files.add(d + '/inner/data2.bin')
+                    live.append(d + '/inner/data2.bin')
+                ops.append(['add-dir', d, members + [[mname, man]], when])
                 files.add(d + '/data.bin')
                 live.append(d + '/data.bin')
                 continue
@@ -160,9 +170,14 @@ def apply_history(base, ops):
             os.makedirs(p, exist_ok=True)
             for name, data in op[2]:
                 q = os.path.join(p, name)
+                if not os.path.isdir(os.path.dirname(q)):
+                    os.makedirs(os.path.dirname(q))
                 with open(q, 'wb') as f:
                     f.write(gzip.compress(data, mtime=0) if name.endswith('.gz') else data)
                 os.utime(q, (op[3], op[3]))
+            for name, data in op[2]:
+                if '/' in name:
+                    os.utime(os.path.dirname(os.path.join(p, name)), (op[3], op[3]))
             os.utime(p, (op[3], op[3]))
             continue
         if op[0] == 'add':
